@@ -160,6 +160,47 @@ impl Family for MpscFam {
             _ => None,
         }
     }
+    fn objects_of(_op: &COp) -> Vec<u32> {
+        vec![0x400]
+    }
+    /// send -> the receive of that value; on a bounded channel of capacity c > 0 the k-th receive ->
+    /// the (k+c)-th successful send (the send it makes room for)
+    fn hb_must(p: &Program<MpscFam>, log: &[Entry<CRes>]) -> Vec<(usize, usize)> {
+        let mut out = Vec::new();
+        let mut sends: Vec<(usize, u32)> = Vec::new();
+        let mut recvs: Vec<usize> = Vec::new();
+        for (i, e) in log.iter().enumerate() {
+            let EKind::Ret(GRes::R(r)) = &e.kind else { continue };
+            let GOp::Op(op) = &p.threads[e.thread][e.op] else { continue };
+            match (op, r) {
+                (COp::Send(v), CRes::Ok) | (COp::TrySend(v), CRes::Ok) => sends.push((i, *v)),
+                (_, CRes::Val(v)) => {
+                    // what the sender had done before its send (the message carries the sender's
+                    // clock at the hand-over, the send may advance the sender's clock further)
+                    let sender = log.iter().enumerate().find(|(_, x)| matches!(&x.kind, EKind::Call) && matches!(&p.threads[x.thread][x.op], GOp::Op(COp::Send(sv)) | GOp::Op(COp::TrySend(sv)) if sv == v));
+                    if let Some((c, x)) = sender {
+                        if let Some(b) = prev_clocked(log, c, x.thread) {
+                            out.push((b, i));
+                        }
+                    }
+                    recvs.push(i);
+                }
+                _ => {}
+            }
+        }
+        if let Some(c) = p.cfg.cap {
+            if c > 0 {
+                for (k, r) in recvs.iter().enumerate() {
+                    if let Some((s, _)) = sends.get(k + c) {
+                        if r < s {
+                            out.push((*r, *s));
+                        }
+                    }
+                }
+            }
+        }
+        out
+    }
     fn m_init(cfg: &CCfg, n: usize) -> CM {
         let mut tx_alive = vec![false; n];
         for t in &cfg.tx_threads {
